@@ -2,7 +2,9 @@ package main
 
 import (
 	"fmt"
+	"go/ast"
 	"go/token"
+	"go/types"
 	"regexp"
 	"strings"
 )
@@ -296,6 +298,121 @@ func linterCheck(c *Check, id string) {
 		c.Ob("linter/source-numbering-injective", "checkCombinatorsBackwardCompatibility/fillMapping", fieldsRHS == "*" && neg, r.pos(ir.Info.Decl.Pos()), fmt.Sprintf("fields are numbered %q (their index, >= 0) and template arguments %q (must be strictly negative: -(index+k), k >= 1), so a reference moved between a field and a template argument never compares as unchanged", fieldsRHS, argsRHS))
 	}
 	c.Floor("linter/comparer-coverage", 6)
+	memoisedMergeUnconditional(c, r)
+}
+
+// memoisedMergeUnconditional: in the memoised traversals of the bit-usage analysis (closures that test a visited map
+// before descending), the result of a child is merged into the entry of the current node whether or not the child
+// had been visited before. A merge placed under the child's "not visited yet" test is skipped for every child
+// reached a second time, and the current node then lacks the bits it inherits through that child.
+func memoisedMergeUnconditional(c *Check, r *repoCtx) {
+	n := 0
+	for _, name := range sortedKeys(r.funcs) {
+		fi := r.funcs[name]
+		if !strings.HasPrefix(name, "internal/tlcodegen.") || fi.Decl.Body == nil || !strings.HasSuffix(r.co.Fset.Position(fi.Decl.Pos()).Filename, "/tlgen.go") {
+			continue
+		}
+		info := fi.Pkg.TypesInfo
+		// local closures: variable → literal
+		closures := map[types.Object]*ast.FuncLit{}
+		ast.Inspect(fi.Decl.Body, func(x ast.Node) bool {
+			as, ok := x.(*ast.AssignStmt)
+			if !ok || len(as.Lhs) != 1 || len(as.Rhs) != 1 {
+				return true
+			}
+			if lit, ok := as.Rhs[0].(*ast.FuncLit); ok {
+				if id, ok := as.Lhs[0].(*ast.Ident); ok {
+					o := info.Uses[id]
+					if o == nil {
+						o = info.Defs[id]
+					}
+					if o != nil {
+						closures[o] = lit
+					}
+				}
+			}
+			return true
+		})
+		for _, lit := range closures {
+			own := map[types.Object]bool{}
+			for _, f := range lit.Type.Params.List {
+				for _, id := range f.Names {
+					own[info.Defs[id]] = true
+				}
+			}
+			mentionsOnlyOwn := func(e ast.Expr) bool {
+				only := true
+				ast.Inspect(e, func(y ast.Node) bool {
+					if id, ok := y.(*ast.Ident); ok {
+						if v, isVar := info.Uses[id].(*types.Var); isVar && !v.IsField() && v.Parent() != fi.Pkg.Types.Scope() && !own[v] {
+							if _, isMap := v.Type().Underlying().(*types.Map); !isMap {
+								only = false
+							}
+						}
+					}
+					return true
+				})
+				return only
+			}
+			ast.Inspect(lit.Body, func(x ast.Node) bool {
+				is, ok := x.(*ast.IfStmt)
+				if !ok || is.Init == nil {
+					return true
+				}
+				// if _, ok := visited[k…]; !ok { … }
+				init, ok := is.Init.(*ast.AssignStmt)
+				if !ok || len(init.Lhs) != 2 || len(init.Rhs) != 1 {
+					return true
+				}
+				ix, ok := init.Rhs[0].(*ast.IndexExpr)
+				if !ok {
+					return true
+				}
+				un, ok := is.Cond.(*ast.UnaryExpr)
+				if !ok || un.Op != token.NOT {
+					return true
+				}
+				// descends? (calls a local closure)
+				descends := false
+				ast.Inspect(is.Body, func(y ast.Node) bool {
+					if call, ok := y.(*ast.CallExpr); ok {
+						if id, ok := call.Fun.(*ast.Ident); ok && closures[info.Uses[id]] != nil {
+							descends = true
+						}
+					}
+					return true
+				})
+				if !descends || mentionsOnlyOwn(ix) {
+					return true // the node's own visited test (mark and process) or not a traversal step
+				}
+				n++
+				// under a child's not-visited test nothing may be stored into an entry keyed by the current node
+				bad := token.NoPos
+				ast.Inspect(is.Body, func(y ast.Node) bool {
+					as, ok := y.(*ast.AssignStmt)
+					if !ok {
+						return true
+					}
+					for _, l := range as.Lhs {
+						for e := ast.Expr(l); ; {
+							lx, ok := e.(*ast.IndexExpr)
+							if !ok {
+								break
+							}
+							if id, ok := ast.Unparen(lx.Index).(*ast.Ident); ok && own[info.Uses[id]] {
+								bad = as.Pos()
+							}
+							e = lx.X
+						}
+					}
+					return true
+				})
+				c.Ob("linter/memoised-result-merged-for-visited-children", fmt.Sprintf("%s/child-visited-test#%d", fi.Name(), n), bad == token.NoPos, r.pos(is.Pos()), "under `if child not visited { descend }` nothing is stored into the current node's entries: the merge of the child's result must also run for children visited earlier")
+				return true
+			})
+		}
+	}
+	c.Floor("linter/memoised-result-merged-for-visited-children", 1)
 }
 
 func posList(r *repoCtx, ps []token.Pos) string {
